@@ -102,6 +102,12 @@ func runD(c *kit.Ctx, r *kit.Rand, idx int) {
 	}
 
 	nPods := r.Range(2, 6)
+	// two pods that are being moved off a deleting node share one claim that is allocated in-cluster and reserved only by them
+	movingDev := ""
+	if free := lo.Filter(w.exclNames, func(d string, _ int) bool { return !lo.Contains(pre, fmt.Sprintf("%s/excl-pool/%s", exclDriver, d)) }); len(free) > 0 && r.Chance(1, 4) {
+		movingDev = kit.Pick(r, free)
+		c.Count("D:setup:two-migrating-pods-share-an-allocated-claim")
+	}
 	var pods []*corev1.Pod
 	var jpods []string
 	var lastClaim string
@@ -110,6 +116,8 @@ func runD(c *kit.Ctx, r *kit.Rand, idx int) {
 		claimName := fmt.Sprintf("claim%d", i)
 		desc := ""
 		switch {
+		case movingDev != "" && i < 2:
+			claimName, desc = "moving", "migrating, shares the in-cluster allocated claim 'moving'"
 		case lastClaim != "" && r.Chance(1, 5): // two pods share one claim
 			claimName, desc = lastClaim, "shares "+lastClaim
 			c.Count("D:pod:shares-a-claim")
@@ -168,8 +176,15 @@ func runD(c *kit.Ctx, r *kit.Rand, idx int) {
 		podClaim = append(podClaim, claimName)
 		jpods = append(jpods, desc)
 	}
+	deletingUIDs := sets.New[types.UID]()
+	if movingDev != "" {
+		moving := test.AllocatedClusterWideClaim("moving", "excl-pool", exclDriver, movingDev, test.PodConsumer(pods[0]), test.PodConsumer(pods[1]))
+		moving.Spec.Devices.Requests = []resourcev1.DeviceRequest{test.ExactDeviceRequest("req", "excl", 1)}
+		kit.Apply(ctx, cl, moving)
+		deletingUIDs.Insert(pods[0].UID, pods[1].UID)
+	}
 	devCtl.Hydrate(ctx)
-	s, err := prov.NewScheduler(ctx, pods, nil, sets.New[types.UID]())
+	s, err := prov.NewScheduler(ctx, pods, nil, deletingUIDs)
 	if err != nil {
 		panic(err)
 	}
